@@ -5,6 +5,7 @@ package main
 // wrong constant or a dropped bit in one backend's decoding/encoding shows up here.
 
 import (
+	"bytes"
 	"math/big"
 	"strconv"
 
@@ -33,6 +34,32 @@ func f2Vals(g *Gen) [][]byte {
 		for e := int64(-1); e <= 1; e++ {
 			add(new(big.Int).Add(new(big.Int).Lsh(bi1, sh), big.NewInt(e)))
 		}
+	}
+	// word-structured values: only one 64-bit / 32-bit word non-zero (a zero/equality test folding the encoding a word at a
+	// time must look at every word), all words equal, words cancelling under XOR
+	for j := 0; j < 8; j++ {
+		b := make([]byte, 32)
+		copy(b[4*j:], g.Bytes(4))
+		b[31] &= 0x7f
+		out = append(out, b)
+		if j%2 == 0 {
+			c := make([]byte, 32)
+			copy(c[4*j:], g.Bytes(8))
+			c[31] &= 0x7f
+			out = append(out, c)
+		}
+	}
+	{
+		w := g.Bytes(8)
+		eq := bytes.Repeat(w, 4)
+		eq[31] &= 0x7f
+		out = append(out, eq)
+		x := append(append(append(g.Bytes(8), g.Bytes(8)...), g.Bytes(8)...), make([]byte, 8)...)
+		for i := 0; i < 8; i++ {
+			x[24+i] = x[i] ^ x[8+i] ^ x[16+i]
+		}
+		x[31] &= 0x7f
+		out = append(out, x)
 	}
 	for _, pat := range []byte{0xff, 0x7f, 0x80, 0x55, 0xaa, 0x01} {
 		b := make([]byte, 32)
